@@ -128,3 +128,18 @@ def aero_config(max_surf=3, kinds=("left", "right", "full", "asym"), nx=(2, 4), 
         return surfs
 
     return _c()
+
+
+def user_units():
+    """units in which the user declares his independent variables (same physical values; OpenMDAO converts)"""
+    return st.fixed_dictionaries(dict(
+        v=st.sampled_from(["m/s", "m/s", "ft/s", "km/h"]),
+        alpha=st.sampled_from(["deg", "deg", "rad"]),
+        beta=st.sampled_from(["deg", "deg", "rad"]),
+        rho=st.sampled_from(["kg/m**3", "kg/m**3", "slug/ft**3"]),
+        re=st.sampled_from(["1/m", "1/m", "1/ft"]),
+        cg=st.sampled_from(["m", "m", "ft"]),
+        height_agl=st.sampled_from(["m", "m", "ft", "km"]),
+        omega=st.sampled_from(["rad/s", "rad/s", "deg/s"]),
+        mesh=st.sampled_from(["m", "m", "ft", "inch"]),
+    ))
